@@ -288,12 +288,12 @@ func (r *Recorder) snapVisible(inc *Incarnation, f *SnapFileWrap) {
 			r.violate("C11", "installed-bytes-differ", r.tainted(inc.Node, "no-such-snapshot", "F3"), "%s installed a snapshot labelled %s (%d bytes, hash %x) that no node ever produced with those bytes (known hashes for the label: %d)",
 				inc.Name(), key, len(f.written), h, len(set))
 		}
-	} else {
-		if r.visibleSnaps[key] == nil {
-			r.visibleSnaps[key] = map[uint64]bool{}
-		}
-		r.visibleSnaps[key][h] = true
 	}
+	// Whatever became visible on a node is a snapshot that node has (and may forward later).
+	if r.visibleSnaps[key] == nil {
+		r.visibleSnaps[key] = map[uint64]bool{}
+	}
+	r.visibleSnaps[key][h] = true
 	// C10(a): content = exactly the committed operations up to the label.
 	ops, err := decodeSnapshot(f.written)
 	if err != nil {
@@ -435,6 +435,7 @@ func (c *Cluster) healPhase() {
 	for _, n := range c.Nodes {
 		n.FS.CrashAt = 0
 		n.FS.ErrAt = 0
+		n.FS.SyncLatency = nil // a slow disk is a fault too
 		if n.Inc != nil {
 			p := n.Inc.Proc
 			p.StallUntil = 0
@@ -508,7 +509,11 @@ func (c *Cluster) healPhase() {
 	}
 	r.ev("heal-end %s", stage)
 	if stage != "ok" {
-		r.violate("C15", "liveness-"+stage, c.livenessCause(stage), "%d election timeouts after faults stopped: %s", budget/cfg.electionNs(), detail)
+		cause := c.livenessCause(stage)
+		if cfg.Membership {
+			cause += "+membership"
+		}
+		r.violate("C15", "liveness-"+stage, cause, "%d election timeouts after faults stopped: %s", budget/cfg.electionNs(), detail)
 	} else {
 		r.probe("heal-converged")
 		c.healedInMs = (c.Sim.Now() - healStart) / 1_000_000
